@@ -24,19 +24,22 @@ Fixpoint hash_sorted (topic : str) (l : list str) : Prop :=
   | a :: r => (match r with [] => True | b :: _ => hashv topic a <= hashv topic b end) /\ hash_sorted topic r
   end.
 
-Fixpoint range_shares_okb (p : plan) (topic : str) (parts : list Z) (m : Z) (i : nat) (sorted : list str) : bool :=
-  match sorted with
-  | [] => true
-  | mid :: r =>
-    let sh := range_share parts m i in
+(* walks the list of cuts (range_bounds, computed once) along the hash-sorted subscribers *)
+Fixpoint range_shares_okb (p : plan) (topic : str) (parts : list Z) (m : Z) (cuts : list Z) (sorted : list str) : bool :=
+  match sorted, cuts with
+  | [], _ => true
+  | mid :: r, lo :: ((hi :: _) as cuts') =>
+    let sh := firstn (Z.to_nat hi - Z.to_nat lo) (skipn (Z.to_nat lo) parts) in
     let q := len parts / m in
     list_eqb Z.eqb (plan_get p mid topic) sh && (q <=? len sh) && (len sh <=? q + (if len parts mod m =? 0 then 0 else 1)) &&
-    range_shares_okb p topic parts m (S i) r
+    range_shares_okb p topic parts m cuts' r
+  | _, _ => false
   end.
 (* observed plan [p]: every topic's subscribers hold their fair contiguous share *)
 Definition range_balancedb (ms : list member) (ts : topics_t) (p : plan) : bool :=
   forallb (fun x => let sorted := sort_by_hash (fst x) (snd x) in
-                    range_shares_okb p (fst x) (topic_partitions ts (fst x)) (len sorted) O sorted) (build_mbt [] ms).
+                    let parts := topic_partitions ts (fst x) in
+                    range_shares_okb p (fst x) parts (len sorted) (range_bounds (len parts) (len sorted)) sorted) (build_mbt [] ms).
 
 (* ---- round robin ---- *)
 (* every member subscribes to every topic that has partitions *)
@@ -47,14 +50,20 @@ Definition all_subscribe_allb (ms : list member) (ts : topics_t) : bool :=
 Definition totals_within_one (ms : list member) (p : plan) : Prop :=
   forall m1 m2, In m1 ms -> In m2 ms -> total p (m_id m1) <= total p (m_id m2) + 1.
 Definition totals_within_oneb (ms : list member) (p : plan) : bool :=
-  forallb (fun m1 => forallb (fun m2 => total p (m_id m1) <=? total p (m_id m2) + 1) ms) ms.
+  let tl := map (fun m => total p (m_id m)) ms in
+  forallb (fun a => forallb (fun b => a <=? b + 1) tl) tl.
 
 (* ---- sticky ---- *)
 (* Kafka's balance: a member holding two or more partitions more than another holds none the other could take *)
 Definition kafka_balanced (ms : list member) (p : plan) : Prop :=
   forall m1 m2 t q, In m1 (map m_id ms) -> In (m2, t, q) (triples p) -> total p m1 + 1 < total p m2 -> ~ subscribes ms m1 t.
 Definition kafka_balancedb (ms : list member) (p : plan) : bool :=
-  forallb (fun x => forallb (fun c => negb ((total p (m_id c) + 1 <? total p (fst (fst x))) && mem str_eqb (snd (fst x)) (m_topics c))) ms) (triples p).
+  let tot := map (fun c => (c, total p (m_id c))) ms in
+  forallb (fun e => let th := total p (fst e) in
+     forallb (fun y => match snd y with
+                       | [] => true
+                       | _ => forallb (fun ct => negb ((snd ct + 1 <? th) && mem str_eqb (fst y) (m_topics (fst ct)))) tot
+                       end) (snd e)) p.
 
 Definition owner_in (p : plan) (x : tp) : option str :=
   match filter (fun y => tp_eqb (snd (fst y), snd y) x) (triples p) with
@@ -63,7 +72,7 @@ Definition owner_in (p : plan) (x : tp) : option str :=
   end.
 Definition opt_str_eqb (a b : option str) : bool := option_eqb str_eqb a b.
 (* the two plans give every partition to the same member (list order aside) *)
-Definition same_owners (p1 p2 : plan) : Prop := forall x, owner_in p1 x = owner_in p2 x.
+Definition same_owners (p1 p2 : plan) : Prop := forall m x, In x (holds p1 m) <-> In x (holds p2 m).
 Definition same_ownersb (p1 p2 : plan) : bool :=
   forallb (fun x => opt_str_eqb (owner_in p1 x) (owner_in p2 x)) (assigned p1 ++ assigned p2).
 (* partitions whose owner changed from one member of [among] to another member of [among] *)
